@@ -291,7 +291,7 @@ def lineend_fonts(tmp, names=("charis_r_gr.ttf", "Padauk.ttf", "Scheherazadegr.t
 
 
 def smp_start_jobs(tmp, opts=0):
-    """charis_r_gr.ttf with the first supplementary group of its format 12 cmap moved down to begin at U+10000 (the first
+    """charis_r_gr.ttf with the first supplementary group of its format 12 cmap moved down as a whole to begin at U+10000 (the first
     code point beyond the BMP: the boundary between what a cached cmap takes from format 4 and from format 12)."""
     import struct
     from fontgen import sfnt
@@ -311,7 +311,7 @@ def smp_start_jobs(tmp, opts=0):
                 a = off + 16 + 12 * g
                 s0, e0, g0 = struct.unpack(">III", cm[a:a + 12])
                 if s0 > 0xFFFF:
-                    cm[a:a + 4] = struct.pack(">I", 0x10000)
+                    cm[a:a + 8] = struct.pack(">II", 0x10000, 0x10000 + (e0 - s0))      # the group as a whole: same glyphs
                     done = True
                     break
         if not done:
